@@ -26,6 +26,7 @@ RULE += ' ' + 'Values include str / int subclasses and bools, compared by type.'
 RULE += ' ' + 'In 40 % of the get_or_set calls with a callable, the callable lets a second backend object store the key meanwhile.'
 RULE += ' ' + 'Timeouts include 30 days, 30 days + 1 s, 40 days and a year (also as backend TIMEOUT), with clock steps of that size.'
 RULE += ' ' + 'A fifth of the runs configure a key-prefixing Disk subclass in OPTIONS, shared by both backend objects.'
+RULE += ' ' + 'A fifth of the runs use a backend subclass that overrides make_key().'
 ASSUMPTIONS = ['outcomes the contract leaves open are accepted either way: return value of set/clear/set_many success, delete() of an expired key',
                'live <=> expire_time > now (zero or negative timeout means already expired)']
 PROBES = ('expired_lookups', 'version_ops', 'tie_instant_reached')
@@ -61,6 +62,8 @@ def gen_case(seed, tier):
         params['KEY_FUNCTION'] = 'tenant'
     if rng.random() < 0.2:
         params['PREFIX_DISK'] = True
+    if rng.random() < 0.2:
+        params['MAKE_KEY_SUBCLASS'] = True
     n = rng.choice((15, 40, 80)) if tier == 'quick' else rng.choice((30, 80, 150))
     prog = []
     for i in range(n):
@@ -344,8 +347,15 @@ def run_case(case):
                     key = super().get(key, raw)
                     return key[4:] if type(key) is str and key.startswith('pfx|') else key
             params['OPTIONS'] = {'disk': PrefixDisk}
-        cache = mod.DjangoCache(world.path('dj'), params)
-        cache.other_worker = mod.DjangoCache(world.path('dj'), params)
+        backend_cls = mod.DjangoCache
+        if params.pop('MAKE_KEY_SUBCLASS', None):
+            # the documented way to customise key namespacing: a backend subclass overriding make_key()
+            class NamespacedCache(mod.DjangoCache):
+                def make_key(self, key, version=None):
+                    return 'site-7/' + super().make_key(key, version=version)
+            backend_cls = NamespacedCache
+        cache = backend_cls(world.path('dj'), params)
+        cache.other_worker = backend_cls(world.path('dj'), params)
         m = ModelDjango(params)
         m.tenant = tenant
         for idx, op in enumerate(case['prog']):
